@@ -378,6 +378,10 @@ struct Scenario {
     ops: Vec<Op>,
     #[serde(default)]
     family: String,
+    /// directories to create besides the module files (relative paths), e.g. a DIRECTORY named
+    /// `m1.koto` next to `m1/main.koto` (F-C18-11): they are not files, so the model ignores them
+    #[serde(default)]
+    extra_dirs: Vec<String>,
     /// model parameters that select "the code as recorded in an open finding" or "the repaired code";
     /// set from the findings' status, never from the scenario file
     #[serde(default, skip_serializing)]
@@ -689,9 +693,15 @@ fn fn_src(header: String, mk: u32, body: &[Act], defaults: u8, ind: &str, out: &
     let args: Vec<String> = (0..defaults).map(|i| format!("zd{} = {}", i, i)).collect();
     out.push(format!("{ind}{header} = |{}|", args.join(", ")));
     let inner = format!("{ind}  ");
-    out.push(format!("{inner}print 'P{mk}'"));
+    // marker 0 = a silent function: no print, its only non-local needs are its import roots
+    if mk != 0 {
+        out.push(format!("{inner}print 'P{mk}'"));
+    }
     for a in body {
         act_src(a, &inner, out);
+    }
+    if mk == 0 && body.is_empty() {
+        out.push(format!("{inner}null"));
     }
 }
 
@@ -844,6 +854,11 @@ fn dir_path(root: &Path, dir: &[Name]) -> PathBuf {
 
 fn write_scenario(root: &Path, sc: &Scenario) {
     std::fs::create_dir_all(root).unwrap();
+    for d in &sc.extra_dirs {
+        let p = root.join(d);
+        std::fs::create_dir_all(&p).unwrap();
+        std::fs::write(p.join("note.txt"), "not a module\n").unwrap();
+    }
     for f in &sc.files {
         let p = root.join(f.path.rel());
         std::fs::create_dir_all(p.parent().unwrap()).unwrap();
@@ -1073,7 +1088,7 @@ fn mod_infos(sc: &Scenario) -> Option<Vec<ModInfo>> {
     let mut seen = BTreeSet::new();
     let mut uniq = true;
     let mut note = |m: u32| {
-        if !seen.insert(m) {
+        if m != 0 && !seen.insert(m) {
             uniq = false;
         }
     };
@@ -1094,6 +1109,9 @@ fn mod_infos(sc: &Scenario) -> Option<Vec<ModInfo>> {
                 TAct::A(_) => {}
                 TAct::Main(mk, body) => {
                     note(*mk);
+                    if *mk == 0 {
+                        simple = false;
+                    }
                     mains.push(*mk);
                     for a in body {
                         if let Act::Print(m) | Act::Show(m, _) | Act::Try(_, m) | Act::TShow(m, _) = a {
@@ -1103,7 +1121,7 @@ fn mod_infos(sc: &Scenario) -> Option<Vec<ModInfo>> {
                 }
                 TAct::Test(n, mk, body) => {
                     note(*mk);
-                    if !test_names.insert(*n) {
+                    if !test_names.insert(*n) || *mk == 0 {
                         simple = false;
                     }
                     tests.push(*mk);
@@ -2077,6 +2095,15 @@ impl<'a> Gen<'a> {
                 }
             }
         }
+        // a DIRECTORY named `<module>.koto` next to a directory module (it is not a file: `import` must
+        // still find `<module>/main.koto`, F-C18-11)
+        let mut extra_dirs: Vec<String> = vec![];
+        for p in layout.iter().filter(|p| p.is_dir) {
+            let file_twin = MPath { is_dir: false, ..p.clone() };
+            if !layout.contains(&file_twin) && self.rng.chance(1, 4) {
+                extra_dirs.push(file_twin.rel());
+            }
+        }
         for p in &layout {
             let folder = p.folder();
             // names resolvable from this file's folder
@@ -2111,6 +2138,7 @@ impl<'a> Gen<'a> {
             ops,
             family: "random".into(),
             flags: Flags::default(),
+            extra_dirs,
         }
     }
 
@@ -2228,6 +2256,7 @@ impl<'a> Gen<'a> {
             ops,
             family: format!("graph{}", kind),
             flags: Flags::default(),
+            extra_dirs: vec![],
         }
     }
 }
@@ -2299,7 +2328,7 @@ fn wild_family(rng: &mut Rng) -> Scenario {
     }
     body2.push(TAct::A(Act::Print(next())));
     ops.push(Op { script: None, fn_defaults: 0, dir: vec![], export_top, body: body2 });
-    Scenario { run_import_tests: rng.chance(2, 3), host_tests: false, prelude: vec![], files, ops, family: "wildcards".into(), flags: Flags::default() }
+    Scenario { run_import_tests: rng.chance(2, 3), host_tests: false, prelude: vec![], files, ops, family: "wildcards".into(), flags: Flags::default(), extra_dirs: vec![] }
 }
 
 /// nested from-path family: three levels of modules, each exporting its own marker names plus the next
@@ -2400,7 +2429,7 @@ fn nested_family(rng: &mut Rng) -> Scenario {
         }
         ops.push(Op { script: None, fn_defaults: 0, dir: vec![], export_top: et, body });
     }
-    Scenario { run_import_tests: rng.chance(1, 2), host_tests: false, prelude: vec![], files, ops, family: "nested-paths".into(), flags: Flags::default() }
+    Scenario { run_import_tests: rng.chance(1, 2), host_tests: false, prelude: vec![], files, ops, family: "nested-paths".into(), flags: Flags::default(), extra_dirs: vec![] }
 }
 
 /// top-level-ids family (REPL mode): host scripts that assign, compound-assign (+= -= *= %= ^=, also in
@@ -2470,7 +2499,7 @@ fn toplevel_family(rng: &mut Rng) -> Scenario {
         }
         ops.push(Op { script: None, fn_defaults: 0, dir: vec![], export_top: et, body });
     }
-    Scenario { run_import_tests: false, host_tests: false, prelude: vec![], files, ops, family: "toplevel".into(), flags: Flags::default() }
+    Scenario { run_import_tests: false, host_tests: false, prelude: vec![], files, ops, family: "toplevel".into(), flags: Flags::default(), extra_dirs: vec![] }
 }
 
 /// exported functions called across modules: a library exports functions whose bodies export, read
@@ -2538,7 +2567,45 @@ fn functions_family(rng: &mut Rng) -> Scenario {
             b.push(TAct::Call(*fk)); // the library calls its own function: then the export lands in the library
         }
     }
+    // SILENT functions (no print): the only non-local need of such a function is the root of its import
+    // statement — every import form × roots provided by the module's own exports made before (k66, a
+    // module map) / after (k67 a module map, k68 a number) the function's creation, by an enclosing
+    // local (k65), by a disk module that nobody imported yet (m3), by the prelude (size)
+    let silent = rng.chance(2, 3);
+    let mut silent_keys: Vec<Name> = vec![];
+    if silent {
+        b.push(TAct::A(Act::Import(vec![Item { name: 2, as_: None, ..Default::default() }])));
+        b.push(TAct::A(Act::ExportId(66, 2)));
+        b.push(TAct::A(Act::Assign(65, 5)));
+        for fk in [76u32, 77] {
+            if fk == 77 && rng.chance(1, 2) {
+                continue;
+            }
+            let roots: [Name; 6] = [66, 67, 68, 65, 3, 90];
+            let r = *rng.pick(&roots);
+            let r2 = *rng.pick(&roots);
+            let it = |n: Name, a: Option<Name>| Item { name: n, as_: a, ..Default::default() };
+            let body = match rng.below(7) {
+                0 | 1 => vec![Act::Import(vec![it(r, None)]), Act::ExportId(63, r)],
+                2 => vec![Act::Import(vec![it(r, None), it(r2, None)]), Act::ExportId(63, r2)],
+                3 => vec![Act::Import(vec![it(r, Some(69))]), Act::ExportId(63, 69)],
+                4 => vec![Act::From(r.into(), vec![it(61, None)]), Act::ExportId(63, 61)],
+                5 => vec![Act::FromAll(r.into()), Act::Export(63, 1)],
+                _ => vec![Act::From(Ref { name: r, sub: vec![61], ..Default::default() }, vec![it(60, None)]), Act::Export(63, 2)],
+            };
+            b.push(TAct::Fn(fk, 0, body));
+            silent_keys.push(fk);
+        }
+    }
     // the exports the functions read are made AFTER the functions were created
+    if silent {
+        b.push(TAct::A(Act::ExportId(67, 2)));
+        b.push(TAct::A(Act::Export(68, 9)));
+        if rng.chance(1, 3) {
+            b.push(TAct::Call(*rng.pick(&silent_keys)));
+            b.push(TAct::A(Act::TShow(next(), 63)));
+        }
+    }
     for k in keys.iter() {
         if rng.chance(2, 3) {
             b.push(TAct::A(Act::Export(*k, 20 + rng.below(9) as i64)));
@@ -2555,6 +2622,7 @@ fn functions_family(rng: &mut Rng) -> Scenario {
         b.push(TAct::Call(*rng.pick(&fn_keys)));
     }
     files.push(FileDef { fn_defaults: lib_defaults, path: MPath { dir: vec![], name: 0, is_dir: false }, body: Some(b) });
+    files.push(FileDef { fn_defaults: 0, path: MPath { dir: vec![], name: 3, is_dir: false }, body: Some(vec![TAct::A(Act::Print(next())), TAct::A(Act::Export(61, 8))]) });
     // m1 imports the library and calls into it
     let mut b = vec![TAct::A(Act::Print(next())), TAct::A(Act::Import(vec![Item { name: 0, as_: None, ..Default::default() }]))];
     for _ in 0..(1 + rng.below(3)) {
@@ -2563,6 +2631,10 @@ fn functions_family(rng: &mut Rng) -> Scenario {
             2 => b.push(TAct::A(Act::Show(next(), *rng.pick(&keys)))),
             _ => b.push(TAct::A(Act::Export(*rng.pick(&keys), 30))),
         }
+    }
+    if !silent_keys.is_empty() && rng.chance(1, 2) {
+        b.push(TAct::CallM(0, *rng.pick(&silent_keys)));
+        b.push(TAct::A(Act::TShow(next(), 63)));
     }
     files.push(FileDef { fn_defaults: 0, path: MPath { dir: vec![], name: 1, is_dir: false }, body: Some(b) });
     // host
@@ -2595,6 +2667,11 @@ fn functions_family(rng: &mut Rng) -> Scenario {
                 }
             }
         }
+        if !silent_keys.is_empty() && rng.chance(1, 2) {
+            body.push(TAct::A(Act::Import(vec![Item { name: 0, as_: Some(64), ..Default::default() }])));
+            body.push(TAct::CallM(64, *rng.pick(&silent_keys)));
+            body.push(TAct::A(Act::TShow(next(), 63)));
+        }
         for k in keys.iter() {
             if rng.chance(1, 3) {
                 body.push(TAct::A(Act::Show(next(), *k)));
@@ -2602,7 +2679,7 @@ fn functions_family(rng: &mut Rng) -> Scenario {
         }
         ops.push(Op { script: None, fn_defaults: 0, dir: vec![], export_top: rng.chance(1, 5), body });
     }
-    Scenario { run_import_tests: false, host_tests: false, prelude: vec![], files, ops, family: "functions".into(), flags: Flags::default() }
+    Scenario { run_import_tests: false, host_tests: false, prelude: vec![], files, ops, family: "functions".into(), flags: Flags::default(), extra_dirs: vec![] }
 }
 
 /// a spelling of the module `name` in folder `to` as seen from folder `from`: `..` up to the common
@@ -2732,7 +2809,7 @@ fn spellings_family(rng: &mut Rng) -> Scenario {
         }
         ops.push(Op { script: None, fn_defaults: 0, dir, export_top: et, body });
     }
-    Scenario { run_import_tests: rng.chance(1, 2), host_tests: false, prelude: vec![], files, ops, family: "spellings".into(), flags: Flags::default() }
+    Scenario { run_import_tests: rng.chance(1, 2), host_tests: false, prelude: vec![], files, ops, family: "spellings".into(), flags: Flags::default(), extra_dirs: vec![] }
 }
 
 /// exported-assignment family: a module re-exports parts of another module through every target shape
@@ -2850,7 +2927,7 @@ fn patterns_family(rng: &mut Rng) -> Scenario {
     }
     body.push(TAct::A(Act::Print(next())));
     ops.push(Op { script: None, fn_defaults: 0, dir: vec![], export_top: false, body });
-    Scenario { run_import_tests: true, host_tests: false, prelude: vec![], files, ops, family: "patterns".into(), flags: Flags::default() }
+    Scenario { run_import_tests: true, host_tests: false, prelude: vec![], files, ops, family: "patterns".into(), flags: Flags::default(), extra_dirs: vec![] }
 }
 
 /// bounded-exhaustive family: every import graph over 3 flat modules in which each module imports
@@ -2892,7 +2969,7 @@ fn exhaustive3(idx: u32) -> Scenario {
             ops.push(Op { script: None, fn_defaults: 0, dir: vec![], export_top: false, body: vec![TAct::A(Act::Try(i.into(), next()))] });
         }
     }
-    Scenario { run_import_tests: true, host_tests: false, prelude: vec![], files, ops, family: "exhaustive3".into(), flags: Flags::default() }
+    Scenario { run_import_tests: true, host_tests: false, prelude: vec![], files, ops, family: "exhaustive3".into(), flags: Flags::default(), extra_dirs: vec![] }
 }
 
 // ------------------------------------------------------------------------------------------------
